@@ -160,8 +160,13 @@ func jsonPatchMember(op map[string]*json.RawMessage, name string) string {
 	return value
 }
 
+var jsonPointerTokenDecoder = strings.NewReplacer("~1", "/", "~0", "~")
+
 // sameJSONPointerToken returns true if both reference tokens address the same member or the same array element.
 func sameJSONPointerToken(a, b string) bool {
+	// compare the tokens as the JSON patch library resolves them ('~1' is '/', '~0' and a lone '~' are '~')
+	a, b = jsonPointerTokenDecoder.Replace(a), jsonPointerTokenDecoder.Replace(b)
+
 	if a == b {
 		return true
 	}
